@@ -53,7 +53,7 @@ TTLS = {"none": None, "day": 86400.0, "sec": 1.0}
 def cells(tier):
     out = []
     bks = ["mem", "redis"]
-    for bk in bks:
+    for bk, mb in [("mem", "mem"), ("redis", "mem"), ("redis", "redis"), ("mem", "amqp")]:
         for chain in CHAINS:
             for store in (True, False):
                 for ttl in TTLS:
@@ -63,9 +63,13 @@ def cells(tier):
                         continue
                     if tier == "quick" and ttl == "sec" and chain not in ("ok", "fail"):
                         continue
+                    if mb != "mem":
+                        vals, errs = vals[:1], errs[:1]
+                        if ttl == "sec":
+                            continue
                     for v in vals:
                         for e in errs:
-                            out.append(dict(bk=bk, chain=chain, store=store, ttl=ttl, val=v, err=e))
+                            out.append(dict(bk=bk, mb=mb, chain=chain, store=store, ttl=ttl, val=v, err=e))
     return out
 
 
@@ -87,7 +91,9 @@ def execute(cell, deviations):
         async def victim(m: MessageDependency):
             k = count["victim"]
             count["victim"] += 1
-            step = chain[k] if k < len(chain) else "park"
+            # further iterations of a recurring job repeat the last outcome, so "the latest
+            # execution" stays well defined however many of them fit into the horizon
+            step = chain[k] if k < len(chain) else (chain[-1] if recurring else "park")
             actor_log(w, "victim", "start", step)
             if step == "park":
                 await asyncio.sleep(3600)
@@ -146,8 +152,9 @@ def execute(cell, deviations):
         got["now"] = CLOCK.now()
 
     build.after = after
-    horizon = 0.4 + (6.0 if recurring else 0) + (1.2 if "timeout" in chain else 0) + (2.6 if retries else 0)
-    res = run_worker("mem", build=build, messages=[], pre=pre, buckets="results", bucket_kind=cell["bk"],
+    horizon = 0.4 + (6.0 if recurring else 0) + (1.2 if "timeout" in chain else 0) + (2.6 if retries else 0) + \
+        (1.0 if cell.get("mb") == "redis" else 0)
+    res = run_worker(cell.get("mb", "mem"), build=build, messages=[], pre=pre, buckets="results", bucket_kind=cell["bk"],
                      stop_at=horizon, worker_kw=dict(graceful_shutdown_time=0.1, tasks_limit=2),
                      deviations=deviations, configure=configure, settle=0.3, max_iters=1_000_000)
     return res, got
@@ -252,7 +259,7 @@ def run_job(job):
             acc.phases["faults=%d" % len(dev or [])] += 1
             for sig, what in viol:
                 acc.violations.append(dict(
-                    signature=f"{cell['bk']} {sig}" + (" under-fault" if dev else ""),
+                    signature=f"{cell.get('mb', 'mem')}/{cell['bk']} {sig}" + (" under-fault" if dev else ""),
                     what=what + f" [cell {cell}, faults {dev}]",
                     job=dict(cells=[cell], bound=0, dev=dev),
                     detail=summary,
